@@ -905,6 +905,7 @@ func TestVF_C15(t *testing.T) {
 		})
 		c15Scenario(t, run, sc, schemeName, ci, root)
 		c15RefusedLoads(run, sc, schemeName, ci, root)
+		c15UnreadableDKGRecords(run, sc, "vfsecret", ci, root)
 		vfhook.SetPoint(nil)
 		os.Stdout = realStdout
 		dlog.ConfigureDefaultLogger(nil, dlog.InfoLevel, true)
